@@ -90,6 +90,16 @@ theorem prec_unique (h : List Form) (hv : valid h = true) (G : Name → List Nam
     ∀ n, n ∈ defined h → G n = prec h n :=
   precR_unique hv G (fun n cs sl hm => hG n cs sl (List.mem_reverse.mp hm))
 
+/-- `:included-flavors` of a non-abstract flavor (the driver hands them to `defflavor` behind the
+    written components, as slip's `addIncludes` does): they follow all written components and
+    everything those bring along, in the order listed -/
+theorem included_flavors_after_components (h : List Form) (hv : valid h = true) {n : Name}
+    {cs inc : List Name} {sl : List (Slot × Option Int)} (hm : Form.defflavor n (cs ++ inc) sl ∈ h) :
+    prec h n = n :: dedup (cs.flatMap (prec h) ++ inc.flatMap (prec h)) := by
+  rw [prec_equation h hv hm, List.flatMap_append]
+
+example : prec [Form.defflavor 1 [] [], .defflavor 2 [] [], .defflavor 3 ([1] ++ [2]) []] 3 = [3, 1, 2] := by decide
+
 /-- `dedup` keeps exactly the members, each once; by definition
     `dedup (x :: xs) = x :: (dedup xs).filter (· ≠ x)`: the first occurrence stays -/
 theorem dedup_spec (l : List Name) : (dedup l).Nodup ∧ ∀ x, x ∈ dedup l ↔ x ∈ l :=
@@ -326,6 +336,35 @@ theorem default_handler_by_precedence (wb : WhopBody) (vm : List Msg) (h : List 
 example : (flatten [Form.defflavor 1 [] [], .defflavor 2 [] [(20, some 7)], .defflavor 3 [1, 2] []] 3).findSome?
     (fun g => ownSlot [Form.defflavor 1 [] [], .defflavor 2 [] [(20, some 7)], .defflavor 3 [1, 2] []] g handlerSlot)
       = some (some 7) := by decide
+
+/-- `send_history_independent`: the last sentence of the property. Two valid histories made of the
+    same forms (one form per flavor, daemon kind and message) — e.g. the methods defined before
+    the flavors that inherit them in one, after them in the other — give the same outcome for
+    every send: same daemons in the same order with the same arguments, same value, same default
+    handler. -/
+theorem send_history_independent (wb : WhopBody) (vm : List Msg) (h1 h2 : List Form)
+    (hv1 : valid h1 = true) (hv2 : valid h2 = true) (hp : h1.Perm h2) (hu : (methodKeys h1).Nodup) :
+    ∃ st1 st2, run vm h1 = .ok st1 ∧ run vm h2 = .ok st2 ∧ ∀ fl, fl ∈ defined h1 → ∀ m a,
+      sendA wb st1 fl m a = sendA wb st2 fl m a := by
+  obtain ⟨st1, hrun1, hI1⟩ := run_inv vm h1.reverse hv1
+  obtain ⟨st2, hrun2, hI2⟩ := run_inv vm h2.reverse hv2
+  rw [List.reverse_reverse] at hrun1 hrun2
+  have hpr : h1.reverse.Perm h2.reverse := (List.reverse_perm h1).trans (hp.trans (List.reverse_perm h2).symm)
+  refine ⟨st1, st2, hrun1, hrun2, fun fl hfl m a => ?_⟩
+  have hfl2 : fl ∈ definedR h2.reverse := (definedR_perm hpr fl).mp hfl
+  have hd1 : st1.defd fl = true := (hI1.defd fl).mpr (Or.inr hfl)
+  have hd2 : st2.defd fl = true := (hI2.defd fl).mpr (Or.inr hfl2)
+  have ht : st1.tab fl m = st2.tab fl m := by
+    rw [hI1.tab fl hfl m, hI2.tab fl hfl2 m]
+    exact specCombosR_perm hv1 hv2 hpr hu vm hfl m
+  have hs : st1.slots fl handlerSlot = st2.slots fl handlerSlot := by
+    rw [hI1.slots fl hfl handlerSlot, hI2.slots fl hfl2 handlerSlot]
+    exact specSlotR_perm hv1 hv2 hpr hfl handlerSlot
+  unfold sendA
+  simp only [hd1, hd2, ht, hs]
+
+example : (specTraceA exampleBodies [9] exampleHistory 3 1 5 = specTraceA exampleBodies [9] exampleHistory' 3 1 5) := by
+  decide
 
 /-! ## rejected forms -/
 
